@@ -1,7 +1,6 @@
 package main
 
 import (
-	"hash"
 	"sync"
 	"fmt"
 	"runtime"
@@ -392,6 +391,9 @@ func execAllocCase(o *out, f [][]int) []int {
 	return []int{9}
 }
 
+// poolHolders is set by c18.go, which is compiled only with the verif tag (it uses the hooks into internal/hmac)
+var poolHolders func(o *out)
+
 func runC20(o *out, thorough bool, r *rng, _ []string) map[string]interface{} {
 	oldProcs := runtime.GOMAXPROCS(1)
 	oldGC := debug.SetGCPercent(-1)
@@ -592,26 +594,9 @@ func runC20(o *out, thorough bool, r *rng, _ []string) map[string]interface{} {
 		}
 		emit([]int{10}, caps, cur.fields, obs, fmt.Sprintf("build maxunknown=%d", maxUnknown))
 	}
-	// sixty-four pooled HMAC states held at the same time (as sixty-four checks in flight hold them), given back,
-	// and taken again: the second time the pool serves every one of them
-	for _, algo := range []int{1, 2} {
-		al := algoOf(algo)
-		key := []byte("k")
-		held := make([]hash.Hash, 64)
-		cycle := func() {
-			for k := range held {
-				held[k] = al.acquire(key)
-			}
-			for k := range held {
-				al.put(held[k])
-			}
-		}
-		cycle()
-		cycle()
-		if nal := mallocs(cycle); nal > 8 {
-			o.failFor("C20", "warm-op-allocates", fmt.Sprintf("x 64 pooled HMAC states (algorithm %d) acquired together, returned, acquired again: %d allocation(s) the second time", algo, nal))
-		}
-		o.count("pool-serves-many-holders")
+	// (needs the hooks into internal/hmac: present only in the build with the verif tag)
+	if poolHolders != nil {
+		poolHolders(o)
 	}
 	// a Decode that fails among the attributes drops nothing the next Decode needs (each repetition of
 	// "fail, then measure the well-formed one" would show the same allocation again)
